@@ -24,7 +24,21 @@ Tie: translator (T) + correspondence (C).
   (vi)  recycling with several models in one directory: saved results of a model interleaved with those of models whose
         names contain its name (prefix, suffix, other case) and with files that are not saved results:
         `estimate(recycle=True)` / `recycled_estimation()` must return the results the model saved last (an estimation of
-        the model itself when it saved nothing), `files_of_type` is compared with `Files.ofType`.
+        the model itself when it saved nothing), `files_of_type` is compared with `Files.ofType`;
+  (vii) every KIND of results object (round 3): RawResults built with / without hessian+BHHH, gradient, bootstrap sample, null and initial log
+        likelihood, user notes, 1-5 parameters (all 2^5 combinations in every run), real quick_estimate() results (also after an estimation
+        with bootstrap on the same object), report files written before saving: attributes present / None / set and the outcome (text or
+        kind of exception) of twelve reports / tables compared with `ResObj` (Lean) before saving, after saving and after loading; EVERY
+        attribute of the stored object and every report, table, printed form, compile_estimation_results / compile_results_in_directory
+        (which load the file themselves), likelihood_ratio_test, get_betas_for_sensitivity_analysis compared between the saved and the
+        re-loaded object (same text or same kind of exception); the pickle estimate() itself wrote is loaded and compared with the object
+        it returned.
+* T (round 3): `Generated/ResultsAttrs.lean` is rewritten on every run from the AST of biogeme.results: every assignment to an attribute of
+  the stored object (RawResults.__init__, _calculate_stats with the `is not None` guards around it, the writers, pickling hooks) must be
+  the table of the Lean model (`ResObj.sourceTable`, by decide).
+* parameters (round 3): values read back through get_value(name[, section]) (compared with `Params.resolve`), the printed form, a BIOGEME
+  object built on the dumped file (its parameter set and attributes, old names included), user-added parameters that share the name of an
+  existing one in another section (ambiguity of the bare name; known finding FC14-6).
 """
 
 from __future__ import annotations
@@ -58,20 +72,30 @@ MANIFEST = dict(
     'bool_spellings), lifted to every admitted value of every entry of the GENERATED default table (table_roundtrip + Generated.defaultParams_ok by decide); '
     'dump-then-read returns exactly the dumped set for all keys (file_roundtrip, keys_preserved, unknown_entry_ignored; Generated.default_file_roundtrip). '
     'Reports list every parameter (reports_list_every_parameter; F12 label = first ten characters: f12_label_short / f12_label_collision); statistics after '
-    'loading = statistics before saving given pickle identity (pickle_rederive). Tie: translator for the default table + correspondence on real Parameters '
-    'files, real results objects (estimated and generated RawResults), parsed reports, and histories of 1-120 outputs with content hashes.',
+    'loading = statistics before saving given pickle identity (pickle_rederive). Round 3 — the results object as a set of attributes (Model/ResultsObj.lean: '
+    'RawResults.__init__, _calculate_stats with its guards, writers, write_pickle, bioResults(pickle_file=), and what each of twelve reports reads): _calculate_stats is '
+    'idempotent (stats_idempotent); for EVERY kind of results object (with/without hessian, gradient, bootstrap, null/initial log likelihood, notes; any number of parameters; '
+    'any report files written before) the object loaded from the pickle has exactly the attributes of the saved one, hence the same reports or the same error '
+    '(results_roundtrip, every_view_same, build_ok_iff); not every attribute is recomputed on load: without hessian secondOrderTable must come from the file, a pickle that '
+    'drops the computed attributes loads into an object whose printed form raises (dropping_statistics_loses_information, printed_form_needs_secondOrderTable); which report '
+    'exists for which kind (printed_form_total, html_iff_second_derivatives = FC14-4, latex_outcome, f12_outcome: F12 needs the hessian only from two parameters on). '
+    'Tie: translators for the default table and for the attribute table of biogeme.results (AST) + correspondence on real Parameters '
+    'files, real results objects of every kind (estimated, quick-estimated and generated RawResults), parsed reports, and histories of 1-120 outputs with content hashes.',
     design='DESIGN.md §5 C14',
     technique='Lean 4 theorems over executable models (file-name search, directory histories, parameter coding and document import) + translator-regenerated '
     'default table with decide obligations + differential correspondence with the real code in scratch directories',
     note='Trusted: tomlkit dumps/parse inverse pair on TOML values (validated here against tomllib), pickle identity on RawResults, CPython number formatting, '
     'OS file system (no concurrent writers between the existence test and open). Partial: F12 identifies a parameter by the first ten characters of its name '
     '(format); "admissible" = accepted by the checks and of the declared kind (a Python bool stored in an int/float parameter is accepted by set_value but '
-    'not read back: C14.param_roundtrip_needs_type). Defects found by this check and repaired in /repo (see KNOWN_FINDINGS.json): recycle picked the lexicographically last pickle (FC14-1), generate_flat_panel_dataframe(save_on_file=True) overwrote (FC14-2), LaTeX cells in exponent notation got ".0" appended (FC14-3), files_of_type read the model name as a glob pattern (FC14-5); still listed as known finding: reports of quick_estimate results raise (FC14-4).',
+    'not read back: C14.param_roundtrip_needs_type). The numerical content of the statistics is abstract in ResObj (a function of the raw attributes; their values are compared '
+    'bit for bit between saved and loaded objects by the harness); results built by hand without gradient / initial log likelihood cannot produce the LaTeX report and the '
+    'general-statistics text (modelled: latex_outcome; estimate() never produces such objects). Known finding FC14-6: read_file fails when a user-added parameter is called optimization_algorithm. Defects found by this check and repaired in /repo (see KNOWN_FINDINGS.json): recycle picked the lexicographically last pickle (FC14-1), generate_flat_panel_dataframe(save_on_file=True) overwrote (FC14-2), LaTeX cells in exponent notation got ".0" appended (FC14-3), files_of_type read the model name as a glob pattern (FC14-5); still listed as known finding: reports of quick_estimate results raise (FC14-4).',
 )
 
 TRUSTED = [
     'tomlkit dumps/parse are an inverse pair on TOML values (cross-checked on every case against tomllib)',
-    'pickle returns an object equal to the one dumped (hypothesis of C14.pickle_rederive)',
+    'pickle returns an object equal to the one dumped (hypothesis of C14.pickle_rederive and C14.results_roundtrip; observed on every case: the attributes returned by pickle.load '
+    'are tallied against the stored ones, and the table of pickling hooks of RawResults/Beta is part of the generated obligation)',
     'CPython format specifications (.3g, .7g, +19.12e, :02d) — report values are compared at the precision of the format',
     'OS file system: a name reported absent by is_file()/exists() is still absent at open(); names compare byte-wise (case-sensitive)',
     'LAPACK (eigh, svd, pinv) is deterministic on identical input within one process (statistics before/after reload are compared exactly)',
@@ -80,11 +104,15 @@ ASSUMPTIONS = [
     'admissible parameter value = accepted by the check functions of the parameter and of its declared kind (Boolean only for bool parameters)',
     'a parameter is identified in the F12 report by the first ten characters of its name (ALOGIT format)',
     'directories contain regular files only; file names are compared as strings',
+    'the statistics stored inside the Beta objects are modelled as two pseudo attributes (betaStats, betaBootStats) of the results object',
+    'reports of results without second derivatives that raise are reported under the known finding FC14-4; what is demanded of them is that the loaded object behaves as the saved one',
 ]
 RULE = (
     'parameter cases: 1-8 set_value calls with admissible/inadmissible values of every kind then dump+read (non-trivial = at least one accepted non-default value); '
     'results cases: generated RawResults (1-5 parameters, adversarial names, singular/non-finite Hessians, bootstrap) and real estimations, pickled and reloaded, '
-    'all reports parsed; histories: 1-120 outputs of 1-3 models and a database with pre-existing decoy files, deletions, backups (non-trivial = some produced name carries a ~NN suffix '
+    'all reports parsed; kinds of results: every combination of hessian / gradient / initial / null log likelihood / bootstrap present or None (32 per run, then random ones with '
+    'BHHH missing, 1-5 parameters, report files written before saving) and quick estimations (alone, after an estimation with bootstrap), non-trivial = no hessian or bootstrap or >= 2 parameters; '
+    'parameter cases with 1-2 user-added parameters sharing a name with a default one (20 %), a BIOGEME object built on the dumped file (30 %); histories: 1-120 outputs of 1-3 models and a database with pre-existing decoy files, deletions, backups (non-trivial = some produced name carries a ~NN suffix '
     'or two or more backups were made); backup histories: 2-14 backups / removals of single backups / re-creations of one file in a directory where the backup numbers in use '
     'are arbitrary (gaps, look-alike names); recycling: 0-101 saved results of a model interleaved with saved results of 0-3 other models whose names contain the name of the '
     'model, plus files that are not saved results (non-trivial = at least two saved results or another model present)'
@@ -100,6 +128,12 @@ W_RECYCLE = 'BIOGEME.estimate(recycle=True): choice of the pickle file'
 W_FLAT = 'Database.generate_flat_panel_dataframe(save_on_file=True)'
 W_QUICK = 'bioResults reports without second derivatives (quick_estimate)'
 W_GLOB = 'BIOGEME.files_of_type: the model name is used as a glob pattern'
+W_READDBG = 'Parameters.read_file: debug message calls get_value("optimization_algorithm") without section'
+
+
+def extra_optimization_algorithm(case):
+    """MATCHER of FC14-6: the parameter set holds a user-added parameter called optimization_algorithm in a second section"""
+    return (case or {}).get('kind') == 'params' and any(x.get('name') == 'optimization_algorithm' for x in (case or {}).get('extra') or [])
 
 
 # ============================================================================ values
@@ -254,6 +288,125 @@ def render_generated(algos, entries) -> str:
 
 GEN_THEOREMS = ['Generated.defaultParams_ok', 'Generated.default_value_roundtrip', 'Generated.default_file_roundtrip']
 
+GEN_ATTRS = core.LEAN / 'Generated' / 'ResultsAttrs.lean'
+GEN_ATTRS_THEOREMS = ['Generated.results_attrs_ok']
+
+
+def live_attr_table():
+    """every assignment to an attribute of the stored results object, read from the live source of biogeme.results (AST):
+    (name, 'ctor', []) for `self.<name> = …` in RawResults.__init__ (source order),
+    (name, 'stats', guards) for `self.data.<name> = …` in bioResults._calculate_stats, guards = the attributes tested
+    `self.data.<g> is not None` by the enclosing if statements,
+    (name, 'writer:<method>', []) for such an assignment in any other method of bioResults,
+    (class.method, 'pickle-hook', []) for a method that customises pickling / attribute access of RawResults or Beta"""
+    import ast
+    import inspect
+
+    import biogeme.results as R
+
+    tree = ast.parse(Path(inspect.getsourcefile(R)).read_text(encoding='utf-8'))
+    rows = []
+
+    def add(row):
+        if row not in rows:
+            rows.append(row)
+
+    def targets_of(node):
+        if isinstance(node, ast.Assign):
+            ts = node.targets
+        elif isinstance(node, (ast.AnnAssign, ast.AugAssign)):
+            ts = [node.target]
+        else:
+            return []
+        out = []
+        for t in ts:
+            out += list(t.elts) if isinstance(t, (ast.Tuple, ast.List)) else [t]
+        return out
+
+    def is_self(n):
+        return isinstance(n, ast.Name) and n.id == 'self'
+
+    def is_self_data(n):
+        return isinstance(n, ast.Attribute) and n.attr == 'data' and is_self(n.value)
+
+    def not_none_guard(test):
+        if (isinstance(test, ast.Compare) and len(test.ops) == 1 and isinstance(test.ops[0], ast.IsNot) and isinstance(test.comparators[0], ast.Constant)
+                and test.comparators[0].value is None and isinstance(test.left, ast.Attribute) and is_self_data(test.left.value)):
+            return test.left.attr
+        return None
+
+    def walk(stmts, guards, kind, on_self_data, in_handler=False):
+        for st in stmts:
+            value = getattr(st, 'value', None)
+            if in_handler and isinstance(value, ast.Constant) and value.value is None:
+                continue   # `except ZeroDivisionError: self.data.x = None` — the case `F … = none` of the model
+            extra = []
+            if isinstance(value, ast.IfExp) and isinstance(value.orelse, ast.Constant) and value.orelse.value is None and not_none_guard(value.test):
+                extra = ['?' + not_none_guard(value.test)]   # `… if self.data.g is not None else None`
+            for t in targets_of(st):
+                if isinstance(t, ast.Attribute) and (is_self_data(t.value) if on_self_data else is_self(t.value)):
+                    add([t.attr, kind, list(guards) + extra])
+                elif isinstance(t, ast.Subscript) and isinstance(t.value, ast.Attribute) and on_self_data and is_self_data(t.value.value):
+                    pass   # an entry of a container assigned before (secondOrderTable[name] = …)
+            if isinstance(st, ast.If):
+                gd = not_none_guard(st.test)
+                walk(st.body, guards + [gd] if gd else guards, kind, on_self_data)
+                walk(st.orelse, guards, kind, on_self_data)
+            elif isinstance(st, (ast.For, ast.While, ast.With)):
+                walk(st.body, guards, kind, on_self_data)
+                walk(getattr(st, 'orelse', []), guards, kind, on_self_data)
+            elif isinstance(st, ast.Try):
+                walk(st.body, guards, kind, on_self_data)
+                for h in st.handlers:
+                    walk(h.body, guards, kind, on_self_data, True)
+                walk(st.orelse, guards, kind, on_self_data)
+                walk(st.finalbody, guards, kind, on_self_data)
+
+    hooks = {'__getstate__', '__setstate__', '__reduce__', '__reduce_ex__', '__getnewargs__', '__getnewargs_ex__', '__getattr__', '__getattribute__',
+             '__setattr__', '__slots__', '__copy__', '__deepcopy__'}
+    for cls in [n for n in tree.body if isinstance(n, ast.ClassDef)]:
+        for item in cls.body:
+            names = [item.name] if isinstance(item, (ast.FunctionDef, ast.AsyncFunctionDef)) else [getattr(t, 'id', None) for t in targets_of(item)]
+            for nm in names:
+                if cls.name in ('RawResults', 'Beta') and nm in hooks:
+                    add([f'{cls.name}.{nm}', 'pickle-hook', []])
+            if not isinstance(item, ast.FunctionDef):
+                continue
+            if cls.name == 'RawResults' and item.name == '__init__':
+                walk(item.body, [], 'ctor', False)
+            elif cls.name == 'RawResults':
+                walk(item.body, [], f'method:{item.name}', False)
+            elif cls.name == 'bioResults' and item.name == '_calculate_stats':
+                walk(item.body, [], 'stats', True)
+            elif cls.name == 'bioResults':
+                walk(item.body, [], f'writer:{item.name}', True)
+    return rows
+
+
+def render_attrs(rows) -> str:
+    body = ',\n'.join('  (%s, %s, [%s])' % (lean_str(n), lean_str(w), ', '.join(lean_str(g) for g in gs)) for n, w, gs in rows)
+    return '\n'.join([
+        '/- GENERATED on every run by harness/props/c14.py (translate) from the source of biogeme.results (AST):',
+        '   every assignment to an attribute of the stored results object, with the `is not None` guards around it.',
+        '   Do not edit. -/',
+        'import Model.ResultsObj',
+        '',
+        'namespace Generated',
+        '',
+        'def liveAttrTable : List (String × String × List String) := [',
+        body,
+        ']',
+        '',
+        '/-- the attributes of the model, where each is assigned and under which guards = those of the live source',
+        '(same rows, no duplicates on either side) -/',
+        'theorem results_attrs_ok :',
+        '    (liveAttrTable.all (ResObj.sourceTable.contains ·) && ResObj.sourceTable.all (liveAttrTable.contains ·)',
+        '      && decide (liveAttrTable.length = ResObj.sourceTable.length)) = true := by decide +kernel',
+        '',
+        'end Generated',
+        '',
+    ])
+
 
 def translate(ctx):
     algos, entries = live_table()
@@ -261,33 +414,46 @@ def translate(ctx):
     GEN.parent.mkdir(exist_ok=True)
     if not GEN.exists() or GEN.read_text() != text:
         GEN.write_text(text)
-    ok, log = core.lean_build(['Generated.DefaultParams'])
-    if not ok:
-        err = next((l.strip()[:300] for l in log.splitlines() if 'error' in l.lower()), log.strip()[-300:])
-        return [{'name': n, 'ok': False, 'why': 'Generated/DefaultParams.lean (live default table) no longer checks: ' + err} for n in GEN_THEOREMS]
-    with tempfile.NamedTemporaryFile('w', suffix='.lean', dir=core.LEAN, delete=False) as tf:
-        tf.write('import Generated.DefaultParams\n')
-        for n in GEN_THEOREMS:
-            tf.write(f'#print axioms {n}\n')
-        tname = tf.name
-    try:
-        p = core.lake(['env', 'lean', tname])
-        out = (p.stdout or '') + (p.stderr or '')
-    finally:
-        os.unlink(tname)
+    atext = render_attrs(live_attr_table())
+    if not GEN_ATTRS.exists() or GEN_ATTRS.read_text() != atext:
+        GEN_ATTRS.write_text(atext)
     obl = []
-    for n in GEN_THEOREMS:
-        m = re.search(r"'" + re.escape(n) + r"' (does not depend on any axioms|depends on axioms: \[([^\]]*)\])", out, flags=re.S)
-        if not m:
-            obl.append({'name': n, 'ok': False, 'why': 'no #print axioms output: ' + out[:200]})
-            continue
-        axs = {x.strip() for x in (m.group(2) or '').replace('\n', ' ').split(',') if x.strip()}
-        bad = axs - core.ALLOWED_AXIOMS
-        obl.append({'name': n, 'ok': not bad, 'why': f'axioms {sorted(bad)}' if bad else ''})
-    for f in (GEN,):
-        src = core.strip_comments(f.read_text())
-        if core.FORBIDDEN.search(src):
-            obl.append({'name': 'Generated.DefaultParams:forbidden', 'ok': False, 'why': 'forbidden construct in generated file'})
+    groups = (('Generated.DefaultParams', GEN, GEN_THEOREMS, 'Generated/DefaultParams.lean (live default table)'),
+              ('Generated.ResultsAttrs', GEN_ATTRS, GEN_ATTRS_THEOREMS, 'Generated/ResultsAttrs.lean (attributes assigned by the live source of biogeme.results: '
+               'constructor, _calculate_stats with its guards, writers, pickling hooks) differs from ResObj.sourceTable or'))
+    built = []
+    for module, path, theorems, label in groups:
+        ok, log = core.lean_build([module])
+        if not ok:
+            err = next((l.strip()[:300] for l in log.splitlines() if 'error' in l.lower()), log.strip()[-300:])
+            obl += [{'name': n, 'ok': False, 'why': f'{label} no longer checks: ' + err} for n in theorems]
+        else:
+            built.append((module, path, theorems))
+    if built:
+        with tempfile.NamedTemporaryFile('w', suffix='.lean', dir=core.LEAN, delete=False) as tf:
+            for module, _, theorems in built:
+                tf.write(f'import {module}\n')
+            for _, _, theorems in built:
+                for n in theorems:
+                    tf.write(f'#print axioms {n}\n')
+            tname = tf.name
+        try:
+            p = core.lake(['env', 'lean', tname])
+            out = (p.stdout or '') + (p.stderr or '')
+        finally:
+            os.unlink(tname)
+        for _, path, theorems in built:
+            for n in theorems:
+                m = re.search(r"'" + re.escape(n) + r"' (does not depend on any axioms|depends on axioms: \[([^\]]*)\])", out, flags=re.S)
+                if not m:
+                    obl.append({'name': n, 'ok': False, 'why': 'no #print axioms output: ' + out[:200]})
+                    continue
+                axs = {x.strip() for x in (m.group(2) or '').replace('\n', ' ').split(',') if x.strip()}
+                bad = axs - core.ALLOWED_AXIOMS
+                obl.append({'name': n, 'ok': not bad, 'why': f'axioms {sorted(bad)}' if bad else ''})
+            src = core.strip_comments(path.read_text())
+            if core.FORBIDDEN.search(src):
+                obl.append({'name': f'{path.stem}:forbidden', 'ok': False, 'why': 'forbidden construct in generated file'})
     return obl
 
 
@@ -352,7 +518,40 @@ def gen_param_case(rng, algos, entries):
         r = rng.random()
         v = gen_admissible(rng, e, algos) if r < 0.6 else gen_value(rng, e['type'], algos, 'typed' if r < 0.85 else 'cross')
         assigns.append({'sec': e['sec'] if rng.random() < 0.5 else None, 'name': e['name'], 'value': v})
-    return {'kind': 'params', 'assigns': assigns}
+    case = {'kind': 'params', 'assigns': assigns, 'biogeme': rng.random() < 0.3}
+    if rng.random() < 0.2:
+        # parameters added by the user (Parameters.add_parameter) under the name of an existing one in another section: get_value / set_value
+        # without section become ambiguous; the file holds the same name in two tables
+        secs = sorted({e['sec'] for e in entries})
+        extra = []
+        for e in rng.sample(entries, rng.randint(1, 2)):
+            extra.append({'name': e['name'], 'from': e['sec'], 'sec': rng.choice([x for x in secs if x != e['sec']] + ['UserSection', 'Zeta', 'A'])})
+        case['extra'] = extra
+        for x in extra:
+            e = next(t for t in entries if t['name'] == x['name'] and t['sec'] == x['from'])
+            for sec in (x['sec'], None, x['from']):
+                if rng.random() < 0.6:
+                    case['assigns'].insert(rng.randint(0, len(case['assigns'])), {'sec': sec, 'name': x['name'], 'value': gen_admissible(rng, e, algos)})
+        case['biogeme'] = False
+    return case
+
+
+def with_extras(case, entries):
+    """the table of the case: the default entries plus the user-added ones (same type, default and checks as their source)"""
+    out = list(entries)
+    for x in case.get('extra') or []:
+        src = next(t for t in entries if t['name'] == x['name'] and t['sec'] == x['from'])
+        if not any(t['name'] == x['name'] and t['sec'] == x['sec'] for t in out):
+            out.append({**src, 'sec': x['sec']})
+    return out
+
+
+def add_extras(P, case):
+    import biogeme.default_parameters as dp
+
+    for x in case.get('extra') or []:
+        src = next(p for p in dp.all_parameters_tuple() if p.name == x['name'] and p.section == x['from'])
+        P.add_parameter(src._replace(section=x['sec']))
 
 
 def outcome_of(fn):
@@ -397,6 +596,7 @@ def run_param_case(case):
 
     with core.scratch(None):
         P = Parameters()
+        add_extras(P, case)
         steps = []
         for a in case['assigns']:
             v = val2py(a['value'])
@@ -413,20 +613,75 @@ def run_param_case(case):
         except Exception as e:  # noqa: BLE001
             out['doc_error'] = f'{type(e).__name__}: {e}'
         Q = Parameters()
+        add_extras(Q, case)
         out['read'] = outcome_of(lambda: Q.read_file('p.toml'))
         out['after'] = state_of(Q)
         out['file_untouched_by_read'] = hashlib.sha1(Path('p.toml').read_bytes()).hexdigest() == h0
         out['others'] = sorted(p for p in os.listdir('.') if p != 'p.toml')
         if out['read'] == 'ok':
+            # what the user reads back, through the public API: get_value with and without section, wrong section, unknown name; printed form
+            out['queries'] = queries_for(case, Q)
+            out['answers'] = [query(Q, q) for q in out['queries']]
+            out['printed'] = [attempt(lambda: str(P)), attempt(lambda: str(Q))]
             out['dump2'] = outcome_of(lambda: Q.dump_file('q.toml'))
             R = Parameters()
+            add_extras(R, case)
             out['read2'] = outcome_of(lambda: R.read_file('q.toml'))
             out['after2'] = state_of(R)
+            nt = val2py(before.get('MultiThreading/number_of_threads', {'i': 0}))
+            if case.get('biogeme') and isinstance(nt, int) and 0 <= nt <= 4096:
+                # (a thread count of 2**31 read from the file makes the C++ engine abort the process with std::bad_alloc when the object is built)
+                out['biogeme'] = biogeme_on_file('p.toml')
+    return out
+
+
+def queries_for(case, Q):
+    keys = [(k.section, k.name) for k in Q.all_parameters_dict]
+    qs = [{'sec': s, 'name': n} for s, n in keys] + [{'sec': None, 'name': n} for n in sorted({n for _, n in keys})]
+    secs = sorted({s for s, _ in keys})
+    for a in case['assigns']:
+        qs.append({'sec': secs[(secs.index(a['sec']) + 1) % len(secs)] if a['sec'] in secs else 'NoSuchSection', 'name': a['name']})
+    qs.append({'sec': None, 'name': 'not_a_biogeme_parameter'})
+    return qs
+
+
+def query(Q, q):
+    from biogeme.exceptions import BiogemeError
+
+    try:
+        return {'ok': py2val(Q.get_value(q['name'], section=q['sec']))}
+    except BiogemeError:
+        return {'err': 'refused'}
+    except Exception as e:  # noqa: BLE001
+        return {'err': 'other:' + type(e).__name__}
+
+
+def biogeme_on_file(fname):
+    """secondary entry point of reading: a BIOGEME object built on the parameter file; its parameter set and the attributes it exposes"""
+    import pandas as pd
+    import biogeme.biogeme as bio
+    import biogeme.database as db
+    from biogeme.expressions import Beta, Variable
+
+    d = db.Database('pdata', pd.DataFrame({'x': [1.0, 2.0], 'y': [1.0, 3.0]}))
+    try:
+        B = bio.BIOGEME(d, -((Variable('y') - Beta('b', 0, None, None, 0) * Variable('x')) ** 2), parameters=fname)
+    except Exception as e:  # noqa: BLE001
+        return {'error': type(e).__name__}
+    out = {'state': state_of(B.biogeme_parameters), 'file': os.path.basename(B.parameter_file or ''), 'props': {}}
+    for n in B.biogeme_parameters.parameter_names:
+        if hasattr(type(B), n):
+            out['props'][n] = attempt(lambda: py2val(getattr(B, n)))
+    for old, new in (('numberOfThreads', 'number_of_threads'), ('numberOfDraws', 'number_of_draws'), ('generatePickle', 'generate_pickle')):
+        out['props']['old:' + new] = attempt(lambda: py2val(getattr(B, old)))
     return out
 
 
 def check_param_case(ctx, res, case, table):
     algos, entries = table
+    entries = with_extras(case, entries)
+    if case.get('extra'):
+        res.tally('params:user-added parameter sharing the name of another one')
     types = {(e['sec'], e['name']): e['type'] for e in entries}
     byname = {}
     for e in entries:
@@ -443,7 +698,8 @@ def check_param_case(ctx, res, case, table):
     all_kind_ok = all(declared_kind_ok(types[tuple(k.split('/', 1))], v) for k, v in real['before'].items())
     if all_kind_ok:
         if real.get('read') != 'ok':
-            res.violate('a dumped parameter file cannot be read back', case, real.get('read'), 'ok', where='Parameters.read_file')
+            res.violate('a dumped parameter file cannot be read back', case, real.get('read'), 'ok',
+                        where=W_READDBG if extra_optimization_algorithm(case) and real.get('read') == 'refused' else 'Parameters.read_file')
         else:
             for k, v in real['before'].items():
                 if real['after'].get(k) != v:
@@ -451,6 +707,35 @@ def check_param_case(ctx, res, case, table):
                     break
             if real.get('read2') != 'ok' or real.get('after2') != real['after']:
                 res.violate('second dump/read of the parameter set differs', case, real.get('after2'), real['after'], where='Parameters.dump_file/read_file')
+            # the same through the public readers: get_value(name, section) and the printed form
+            for q, a in zip(real.get('queries', []), real.get('answers', [])):
+                exp = real['before'].get(f'{q["sec"]}/{q["name"]}')
+                if q['sec'] is not None and exp is not None and a != {'ok': exp}:
+                    res.violate(f'get_value({q["name"]!r}, section={q["sec"]!r}) after reading the file back', case, a, exp, where='Parameters.get_value after read_file')
+                    break
+                if q['sec'] is None and len(byname.get(q['name'], [])) == 1 and a != {'ok': real['before'][f'{byname[q["name"]][0]}/{q["name"]}']}:
+                    res.violate(f'get_value({q["name"]!r}) after reading the file back', case, a, real['before'][f'{byname[q["name"]][0]}/{q["name"]}'], where='Parameters.get_value after read_file')
+                    break
+            pr = real.get('printed')
+            if pr and pr[0] != pr[1]:
+                res.violate('printed form of the parameter set read back differs from the one dumped', case, _short(pr[1]), _short(pr[0]), where='Parameters.__str__ after read_file')
+            bg = real.get('biogeme')
+            if bg is not None:
+                if 'error' in bg:
+                    res.tally('params:BIOGEME refuses the values of the file (' + bg['error'] + ')')
+                else:
+                    res.tally('params:BIOGEME built on the dumped file')
+                    if bg['state'] != real['before']:
+                        res.violate('the parameters of a BIOGEME object built on the dumped file differ from the dumped ones', case, _diff(bg['state'], real['before']), '',
+                                    where='BIOGEME(parameters=<file>)')
+                    for n, v in bg['props'].items():
+                        name = n[4:] if n.startswith('old:') else n
+                        if name == 'number_of_threads' and real['before'].get('MultiThreading/number_of_threads') == {'i': 0}:
+                            continue   # documented: 0 stands for the number of processors, which is what the attribute shows
+                        if len(byname.get(name, [])) == 1 and v != real['before'][f'{byname[name][0]}/{name}']:
+                            res.violate(f'BIOGEME attribute {n} on the dumped file differs from the dumped value', case, v, real['before'][f'{byname[name][0]}/{name}'],
+                                        where='BIOGEME(parameters=<file>)')
+                            break
     else:
         res.tally('params:value of another kind accepted by set_value')
     if not real.get('file_untouched_by_read', True):
@@ -476,12 +761,21 @@ def check_param_case(ctx, res, case, table):
         if 'ok' in ans:
             mafter = {f'{e["sec"]}/{e["name"]}': e['value'] for e in ans['ok']}
             if real.get('read') != 'ok' or mafter != real.get('after'):
-                res.diverge('values after read_file', case, _diff(mafter, real.get('after', {})), real.get('read'))
+                res.diverge('values after read_file', case, _diff(mafter, real.get('after', {})), real.get('read'),
+                            where=W_READDBG if extra_optimization_algorithm(case) and real.get('read') == 'refused' else '')
         elif real.get('read') != ans.get('err'):
-            res.diverge('outcome of read_file', case, ans, real.get('read'))
+            res.diverge('outcome of read_file', case, ans, real.get('read'), where=W_READDBG if extra_optimization_algorithm(case) and real.get('read') == 'refused' else '')
+
+    def cb_get(ans):
+        if ans.get('values') != real.get('answers'):
+            k = next((i for i, (a, b) in enumerate(zip(ans.get('values', []), real.get('answers', []))) if a != b), None)
+            res.diverge('get_value after read_file vs Params.resolve', case, [real['queries'][k], ans['values'][k]] if k is not None else ans, real['answers'][k] if k is not None else '')
 
     if 'doc' in real:
         ctx.batch.add({'op': 'import_document', 'algos': algos, 'params': entries, 'doc': real['doc']}, cb_read)
+    if real.get('queries'):
+        after_entries = [{**e, 'value': real['after'][f'{e["sec"]}/{e["name"]}']} for e in entries]
+        ctx.batch.add({'op': 'get_value', 'params': after_entries, 'queries': real['queries']}, cb_get)
     ctx.batch.add(req, cb)
 
 
@@ -624,6 +918,14 @@ def check_missing_file(ctx, res):
         res.count(case, nontrivial=False)
         if o != 'ok' or files != ['biogeme.toml'] or o2 != 'ok' or state_of(Q) != state_of(Parameters()):
             res.violate('default parameter file is not created / not readable', case, [o, files, o2], 'biogeme.toml with the default values', where='Parameters.read_file')
+        # the defaults through the module-level reader, with and without section
+        from biogeme.parameters import get_default_value
+
+        for e in live_table()[1]:
+            got = [attempt(lambda: py2val(get_default_value(e['name'], section=e['sec']))), attempt(lambda: py2val(get_default_value(e['name'])))]
+            if got != [e['value'], e['value']]:
+                res.violate(f'get_default_value({e["name"]!r}) is not the default of the table', case, got, e['value'], where='parameters.get_default_value')
+                break
 
 
 # ============================================================================ (ii)+(iii) results objects
@@ -740,12 +1042,10 @@ def make_results(spec):
         number_of_threads=4,
         bootstrap_time=datetime.timedelta(seconds=2),
     )
-    out = BiogemeFunctionOutput(
-        function=spec['logLike'],
-        gradient=np.array(spec['g'], dtype=float),
-        hessian=np.array(spec['H'], dtype=float),
-        bhhh=np.array(spec['bhhh'], dtype=float),
-    )
+    def arr(x):
+        return None if x is None else np.array(x, dtype=float)
+
+    out = BiogemeFunctionOutput(function=spec['logLike'], gradient=arr(spec['g']), hessian=arr(spec['H']), bhhh=arr(spec['bhhh']))
     boot = None if spec.get('bootstrap') is None else np.array(spec['bootstrap'], dtype=float)
     raw = RawResults(model, [float(v) for v in spec['values']], out, bootstrap=boot)
     return bioResults(raw, identification_threshold=spec.get('threshold'))
@@ -821,7 +1121,7 @@ def snapshot(r):
     """everything a user can read from a results object, canonicalised"""
     d = r.data
     snap = {
-        'betas': [[b.name] + [canon(getattr(b, a)) for a in ('value', 'lb', 'ub', 'stdErr', 'tTest', 'pValue', 'robust_stdErr', 'robust_tTest',
+        'betas': [[b.name] + [canon(getattr(b, a, '<absent>')) for a in ('value', 'lb', 'ub', 'stdErr', 'tTest', 'pValue', 'robust_stdErr', 'robust_tTest',
                                                            'robust_pValue', 'bootstrap_stdErr', 'bootstrap_tTest', 'bootstrap_pValue')] for b in d.betas],
         'beta_values': attempt(lambda: canon(r.get_beta_values())),
         'general': attempt(lambda: {k: [canon(v.value), v.format] for k, v in r.get_general_statistics().items()}),
@@ -846,8 +1146,55 @@ def snapshot(r):
         'html': mask(attempt(r.get_html)),
         'html_all': mask(attempt(lambda: r.get_html(only_robust=False))),
         'latex': mask(attempt(r.get_latex)),
+        'latex_all': mask(attempt(lambda: r.get_latex(only_robust=False))),
+        # every attribute of the stored object (r.data.<name> is the documented way to read a statistic)
+        'attrs': {k: canon_attr(k, v) for k, v in sorted(d.__dict__.items())},
+        'flags': attempt(lambda: [bool(r.variance_covariance_missing()), bool(r.algorithm_has_converged()), int(r.number_of_free_parameters())]),
+        'beta_subset': attempt(lambda: canon(r.get_beta_values(my_betas=list(d.betaNames)[-1:]))),
+        'correlation_subset': attempt(lambda: frame(r.get_correlation_results(subset=list(d.betaNames)[:2]))),
+        'lr_self': attempt(lambda: canon(tuple(r.likelihood_ratio_test(r)))),
+        'sens_boot': attempt(lambda: canon(r.get_betas_for_sensitivity_analysis(list(d.betaNames)[:2]))),
+        'sens_sim': attempt(lambda: seeded_numpy(lambda: canon(r.get_betas_for_sensitivity_analysis(list(d.betaNames)[:2], size=3, use_bootstrap=False)))),
     }
+    for tag, kw in COMPILE_OPTIONS.items():
+        snap['compile:' + tag] = attempt(lambda: compiled({'the model': r}, kw))
     return snap
+
+
+COMPILE_OPTIONS = {
+    'default': {},
+    'numbers': {'formatted': False, 'include_robust_stderr': True},
+    'short': {'use_short_names': True, 'include_robust_stderr': True, 'include_robust_ttest': False,
+              'statistics': ('Sample size', 'Final log likelihood', 'Rho-square for the init. model', 'Final gradient norm')},
+}
+
+
+def compiled(dict_of_results, kw):
+    """compile_estimation_results: the table and the description of the columns"""
+    from biogeme.results import compile_estimation_results
+
+    df, conf = compile_estimation_results(dict_of_results, **kw)
+    return [frame(df), canon(conf)]
+
+
+def seeded_numpy(fn):
+    """run fn with numpy's global generator in a fixed state, and put the state back"""
+    st = np.random.get_state()
+    np.random.seed(20240607)
+    try:
+        return fn()
+    finally:
+        np.random.set_state(st)
+
+
+def canon_attr(name, v):
+    if name == 'betas':
+        return [{k: canon(x) for k, x in sorted(b.__dict__.items())} for b in v]
+    if isinstance(v, dict):
+        return {str(k): canon_attr('', x) for k, x in v.items()}
+    if isinstance(v, (datetime.timedelta, datetime.datetime)):
+        return repr(v)
+    return canon(v)
 
 
 REPORTS = ('html', 'latex', 'f12', 'str')
@@ -924,19 +1271,73 @@ def latex_suffix_case(case):
     return any(not fmt3_is_safe(float(v)) for v in vals)
 
 
+W_ROUNDTRIP = 'bioResults.write_pickle / bioResults(pickle_file=...)'
+
+# view of the Lean model (ResObj.views) -> key of the snapshot
+MODEL_VIEWS = {'short_summary': 'short_summary', 'str': 'str', 'general': 'general', 'general_text': 'general_text', 'estimated': 'estimated_all',
+               'correlation': 'correlation', 'varcovar': 'varcovar', 'robust_varcovar': 'robust_varcovar', 'bootstrap_varcovar': 'bootstrap_varcovar',
+               'html': 'html', 'latex': 'latex', 'f12': 'f12'}
+BETA_STATS = ('stdErr', 'tTest', 'pValue', 'robust_stdErr', 'robust_tTest', 'robust_pValue')
+BETA_BOOT_STATS = ('bootstrap_stdErr', 'bootstrap_tTest', 'bootstrap_pValue')
+WRITER_OF = {'html': 'write_html', 'latex': 'write_latex', 'f12': 'write_f12'}
+
+
+def object_kind(r):
+    """which of the optional inputs of RawResults are there (read from the real object: they are never assigned after the constructor)"""
+    d = r.data
+    return {'userNotes': d.userNotes is not None, 'initLogLike': d.initLogLike is not None, 'nullLogLike': d.nullLogLike is not None, 'g': d.g is not None,
+            'H': d.H is not None, 'bhhh': d.bhhh is not None, 'bootstrap': d.bootstrap is not None, 'k': int(d.nparam)}
+
+
+def slots_of(r):
+    """attribute -> 'none' / 'val' for the stored object (absent attributes are not listed), with the two pseudo attributes of the model"""
+    out = {k: ('none' if v is None else 'val') for k, v in r.data.__dict__.items()}
+    for pseudo, fields in (('betaStats', BETA_STATS), ('betaBootStats', BETA_BOOT_STATS)):
+        if any(not hasattr(b, f) for b in r.data.betas for f in fields):
+            out[pseudo] = 'absent'
+            continue
+        nones = [getattr(b, f) is None for b in r.data.betas for f in fields]
+        out[pseudo] = 'none' if all(nones) else 'val' if not any(nones) else 'mixed'
+    return out
+
+
+def outcome_kind(v):
+    return v[4:] if isinstance(v, str) and v.startswith('EXC:') else 'ok'
+
+
+def view_outcomes(snap):
+    return {mv: outcome_kind(snap[key]) for mv, key in MODEL_VIEWS.items()}
+
+
 def check_results_object(ctx, res, case, r, names, values, active=None, stub=True):
-    """(ii) pickle round trip + (iii) reports, on one real results object in the current (scratch) directory"""
+    """(ii) pickle round trip + (iii) reports, on one real results object in the current (scratch) directory; the object may be of any
+    kind (with / without second derivatives, gradient, bootstrap, null / initial log likelihood, one parameter)"""
+    import pickle
+
     from biogeme.results import bioResults
 
+    kind = object_kind(r)
+    complete = kind['H'] and kind['g'] and kind['initLogLike']   # what estimate() produces
+    res.tally('results kind:' + ''.join(c if kind[f] else '-' for c, f in (('H', 'H'), ('g', 'g'), ('i', 'initLogLike'), ('n', 'nullLogLike'), ('b', 'bootstrap'), ('u', 'userNotes')))
+              + (':K=1' if kind['k'] == 1 else ''))
+    pre_writes = [f for f, a in (('html', 'htmlFileName'), ('latex', 'latexFileName'), ('f12', 'F12FileName'), ('pickle', 'pickleFileName')) if getattr(r.data, a, None) is not None]
     before = snapshot(r)
+    slots = {'before': slots_of(r)}
+    outcomes = {'before': view_outcomes(before)}
     # --- (iii) reports list every parameter with its value (oracle) and agree with the model rows
     for rep in ('html', 'latex', 'f12', 'str', 'short_summary'):
-        if isinstance(before[rep], str) and before[rep].startswith('EXC:'):
-            res.violate(f'report {rep} cannot be generated: {before[rep]}', case, before[rep], 'a report listing every parameter', where=f'bioResults.{rep}')
+        if outcome_kind(before[rep]) != 'ok':
+            if not kind['H']:
+                res.violate(f'report {rep} of results without second derivatives cannot be generated: {before[rep]}', case, before[rep], 'a report listing every parameter', where=W_QUICK)
+            elif not complete:
+                # a RawResults built by hand without gradient / initial log likelihood: estimate() never produces one
+                res.tally(f'results:report {rep} needs the gradient and the initial log likelihood')
+            else:
+                res.violate(f'report {rep} cannot be generated: {before[rep]}', case, before[rep], 'a report listing every parameter', where=f'bioResults.{rep}')
     found = parse_reports(before, names, values)
     digits = {'html': 3, 'latex': 3, 'str': 3, 'f12': 13}
     for rep in REPORTS:
-        if isinstance(before[rep], str) and before[rep].startswith('EXC:'):
+        if outcome_kind(before[rep]) != 'ok':
             continue
         for n, x, t in zip(names, values, found[rep]):
             if t is None:
@@ -945,6 +1346,19 @@ def check_results_object(ctx, res, case, r, names, values, active=None, stub=Tru
             if not value_agrees(t, x, digits[rep]):
                 where = W_LATEX if rep == 'latex' and not fmt3_is_safe(x) else f'bioResults report {rep}'
                 res.violate(f'{rep} report lists parameter {n!r} with {t!r}, which is not its value {x!r}', {**case, 'values_printed': values}, t, f'{x:.{digits[rep]}g}', where=where)
+                break
+    # the same reports with their other option (all statistics instead of the robust ones only; Rao-Cramer standard errors in F12)
+    alt = {'html': 'html_all', 'latex': 'latex_all', 'f12': 'f12_raocramer'}
+    found_alt = parse_reports({'html': before['html_all'], 'latex': before['latex_all'], 'f12': before['f12_raocramer'], 'str': ''}, names, values)
+    for rep, key in alt.items():
+        if outcome_kind(before[key]) != 'ok':
+            if outcome_kind(before[rep]) == 'ok':
+                res.violate(f'report {key} cannot be generated although {rep} can: {before[key]}', case, before[key], 'a report listing every parameter', where=f'bioResults.{key}')
+            continue
+        for n, x, t in zip(names, values, found_alt[rep]):
+            if t is None or not value_agrees(t, x, digits[rep]):
+                where = W_LATEX if rep == 'latex' and t is not None and not fmt3_is_safe(x) else f'bioResults report {key}'
+                res.violate(f'{key} report does not list parameter {n!r} with its value (found {t!r})', {**case, 'values_printed': values}, t, f'{x:.{digits[rep]}g}', where=where)
                 break
     rows = [{'name': n, 'value': f'{x:.3g}', 'active': bool(a)} for n, x, a in zip(names, values, active or [False] * len(names))]
     rows12 = [{'name': n, 'value': f'{x: >+19.12e}'.strip(), 'active': bool(a)} for n, x, a in zip(names, values, active or [False] * len(names))]
@@ -964,6 +1378,25 @@ def check_results_object(ctx, res, case, r, names, values, active=None, stub=Tru
                     break
 
     ctx.batch.add_many([{'op': 'rows', 'rows': rows}, {'op': 'rows', 'rows': rows12}], cb)
+    # --- report files written before the results are saved: the saved object remembers their names
+    writes = []
+    for w in case.get('writes') or []:
+        if outcomes['before'].get(w) != 'ok':
+            continue   # the writer would raise half-way (known shape, reported above)
+        there = listing()
+        out = attempt(getattr(r, WRITER_OF[w]))
+        now = listing()
+        if isinstance(out, str) and out.startswith('EXC:'):
+            res.violate(f'{WRITER_OF[w]} raises although the report can be generated: {out}', case, out, 'a report file', where=f'bioResults.{WRITER_OF[w]}')
+        else:
+            writes.append(w)
+        # the object may already have written this report (estimate() does): the second file gets a new name
+        changed = sorted(p for p in there if now.get(p) != there[p])
+        added = sorted(set(now) - set(there))
+        recorded = getattr(r.data, {'html': 'htmlFileName', 'latex': 'latexFileName', 'f12': 'F12FileName'}[w], None)
+        if changed or added != [recorded]:
+            res.violate(f'{WRITER_OF[w]} on an object that may have been written before: modified {changed}, added {added}, recorded name {recorded!r}', case,
+                        [changed, added], 'exactly one new file, nothing modified', where=f'bioResults.{WRITER_OF[w]}')
     # --- (ii) pickle -> load -> compare everything
     existing = {p: hashlib.sha1(Path(p).read_bytes()).hexdigest() for p in os.listdir('.') if os.path.isfile(p)}
     fname = attempt(r.write_pickle)
@@ -976,20 +1409,74 @@ def check_results_object(ctx, res, case, r, names, values, active=None, stub=Tru
         if p != fname and hashlib.sha1(Path(p).read_bytes()).hexdigest() != h:
             res.violate(f'write_pickle modified {p}', case, p, 'unchanged', where='bioResults.write_pickle')
     saved = snapshot(r)  # the object now knows its pickle name
+    slots['saved'] = slots_of(r)
+    outcomes['saved'] = view_outcomes(saved)
+    # the hypothesis of C14.results_roundtrip, observed: what pickle returns is the stored object (before any statistic is recomputed)
+    try:
+        with open(fname, 'rb') as f:
+            back = pickle.load(f)
+        same = sorted(back.__dict__) == sorted(r.data.__dict__) and all(canon_attr(k, v) == saved['attrs'][k] for k, v in back.__dict__.items())
+        res.tally('pickle returns the stored attributes' if same else 'pickle returns other attributes than stored (customised pickling)')
+    except Exception as e:  # noqa: BLE001
+        res.tally(f'pickle file not readable by pickle.load: {type(e).__name__}')
     try:
         r2 = bioResults(pickle_file=fname, identification_threshold=r.identification_threshold)
     except Exception as e:  # noqa: BLE001
-        res.violate(f'saved results cannot be loaded: {type(e).__name__}: {e}', case, fname, 'results loaded', where='bioResults(pickle_file=...)')
+        res.violate(f'saved results cannot be loaded: {type(e).__name__}: {e}', case, fname, 'results loaded', where=W_ROUNDTRIP)
         return
     loaded = snapshot(r2)
+    slots['loaded'] = slots_of(r2)
+    outcomes['loaded'] = view_outcomes(loaded)
     bad = [k for k in saved if saved[k] != loaded[k]]
     if bad:
         k = bad[0]
-        res.violate(f'results loaded from the pickle differ from the saved ones in: {bad}', case, _short(loaded[k]), _short(saved[k]), where='bioResults.write_pickle / bioResults(pickle_file=...)')
+        what = f'{k}.{next(a for a in sorted(set(saved[k]) | set(loaded[k])) if saved[k].get(a, "<absent>") != loaded[k].get(a, "<absent>"))}' if k == 'attrs' else k
+        res.violate(f'results loaded from the pickle differ from the saved ones in: {bad} (first: {what})', case, _short(loaded[k]), _short(saved[k]), where=W_ROUNDTRIP)
+    # secondary entry point of loading: compile_estimation_results reads the file itself (and swallows every error of the loading)
+    for tag, kw in COMPILE_OPTIONS.items():
+        direct = attempt(lambda: compiled({'the model': r}, kw))
+        via_file = attempt(lambda: compiled({'the model': fname}, kw))
+        if direct != via_file:
+            res.violate(f'compile_estimation_results({tag}) of the pickle file differs from the table of the results object', case, _short(via_file), _short(direct), where=W_ROUNDTRIP)
+            break
+    # … and compile_results_in_directory reads every saved results of the directory: the column of this file is the column of the object
+    from biogeme.results import compile_results_in_directory
+
+    def column(fr, col):
+        if not isinstance(fr, list) or not isinstance(fr[0], dict) or col not in fr[0]['columns']:
+            return fr
+        j = fr[0]['columns'].index(col)
+        return {i: row[j] for i, row in zip(fr[0]['index'], fr[0]['values']) if row[j] != ''}
+
+    direct = column(attempt(lambda: compiled({'the model': r}, {})), 'the model')
+    in_dir = column(attempt(lambda: [frame(compile_results_in_directory()[0]), None]), fname)
+    if direct != in_dir:
+        res.violate('compile_results_in_directory: the column of the saved file differs from the table of the results object', case, _short(in_dir), _short(direct), where=W_ROUNDTRIP)
     # the statistics did not change by being saved either
-    drift = [k for k in before if k not in ('raw',) and before[k] != saved[k]]
-    if drift:
+    drift = [k for k in before if k not in ('raw', 'attrs') and before[k] != saved[k]]
+    drift += [f'attrs.{a}' for a in before['attrs'] if a not in ('pickleFileName', 'htmlFileName', 'latexFileName', 'F12FileName') and before['attrs'][a] != saved['attrs'].get(a)]
+    if drift and not writes:
         res.diverge('saving changed what the results object reports', case, drift, '')
+    # --- the model of the object: attributes present / None / set at the three moments, which view can be produced
+    req = {'op': 'resobj', **kind, 'pre_writes': pre_writes, 'writes': writes}
+
+    def cb_obj(ans):
+        if ans.get('built') != 'ok':
+            res.diverge('ResObj.build fails on an object the real constructor accepted', case, ans.get('built'), 'ok')
+            return
+        if ans.get('loaded_equals_saved') is not True:
+            res.diverge('ResObj: loaded object differs from the saved one in the model', case, ans.get('loaded_equals_saved'), True)
+        for moment in ('before', 'saved', 'loaded'):
+            m = {n: sl for n, sl in ans.get(moment, []) if sl != 'absent'}
+            if m != slots[moment]:
+                res.diverge(f'attributes of the results object ({moment}): ResObj vs RawResults.__dict__', case, _diff(m, slots[moment]), '')
+                break
+            mo = dict(ans.get('views_' + moment, []))
+            if mo != outcomes[moment]:
+                res.diverge(f'which reports can be produced ({moment}): ResObj.runView vs the real reports', case, _diff(mo, outcomes[moment]), '')
+                break
+
+    ctx.batch.add(req, cb_obj)
     res.traces_validated += 1
 
 
@@ -998,15 +1485,55 @@ def _short(x):
     return s if len(s) < 700 else s[:700] + '…'
 
 
+def spec_kind(spec):
+    return {'userNotes': spec.get('userNotes') is not None, 'initLogLike': spec['initLogLike'] is not None, 'nullLogLike': spec['nullLogLike'] is not None,
+            'g': spec['g'] is not None, 'H': spec['H'] is not None, 'bhhh': spec['bhhh'] is not None, 'bootstrap': spec['bootstrap'] is not None, 'k': len(spec['names'])}
+
+
+def gen_kind_spec(rng, tag, flags=None):
+    """a results object of one of the kinds the constructor of RawResults admits: each of hessian (+ BHHH), gradient, bootstrap, null and initial
+    log likelihood, user notes present or None; 1-4 parameters; some report files written before the results are saved"""
+    spec = gen_results_spec(rng, tag)
+    k = len(spec['names'])
+    if flags is None:
+        flags = {f: rng.random() < p for f, p in (('H', 0.45), ('g', 0.6), ('initLogLike', 0.65), ('nullLogLike', 0.5), ('bootstrap', 0.5), ('userNotes', 0.5))}
+        flags['bhhh'] = flags['H'] if rng.random() < 0.93 else not flags['H']
+    if flags['bootstrap'] and spec['bootstrap'] is None:
+        spec['bootstrap'] = [[spec['values'][j] + rng.randint(-8, 8) / 16.0 for j in range(k)] for _ in range(rng.choice([2, 3, 6]))]
+    if not flags['bootstrap']:
+        spec['bootstrap'] = None
+    if flags['nullLogLike'] and spec['nullLogLike'] is None:
+        spec['nullLogLike'] = (spec['initLogLike'] or spec['logLike']) - rng.randint(0, 80) / 8.0
+    if not flags['nullLogLike']:
+        spec['nullLogLike'] = None
+    spec['userNotes'] = 'notes of the user' if flags['userNotes'] else None
+    for f in ('H', 'bhhh', 'g', 'initLogLike'):
+        if not flags[f]:
+            spec[f] = None
+    if spec['H'] is None:
+        spec['hkind'] = 'none'
+    spec['writes'] = [w for w in ('html', 'latex', 'f12') if rng.random() < 0.3]
+    return spec
+
+
 def results_case_stub(ctx, res, spec):
     with core.scratch(TOML):
         try:
             r = make_results(spec)
         except Exception as e:  # noqa: BLE001
-            res.notes.append(f'generated RawResults refused by the constructor ({type(e).__name__}: {e}) — case skipped')
+            # the constructor refuses this combination (a hessian without BHHH matrix): the model must refuse it with the same kind of error
+            kind, ek = spec_kind(spec), type(e).__name__
+            res.count(spec, nontrivial=False)
+            res.tally(f'results:constructor raises {ek}')
+
+            def cb(ans):
+                if ans.get('built') != ek:
+                    res.diverge('RawResults / bioResults constructor raises, ResObj.build does not (or another kind of error)', spec, ans.get('built'), ek)
+
+            ctx.batch.add({'op': 'resobj', **kind, 'pre_writes': [], 'writes': []}, cb)
             return
         active = [bool(b.is_bound_active()) for b in r.data.betas]
-        res.count(spec, nontrivial=len(spec['names']) >= 2 or spec['bootstrap'] is not None)
+        res.count(spec, nontrivial=len(spec['names']) >= 2 or spec['bootstrap'] is not None or spec['H'] is None)
         res.tally('results:' + spec['hkind'])
         res.tally('results:K=%d' % len(spec['names']))
         check_results_object(ctx, res, spec, r, spec['names'], [float(v) for v in spec['values']], active)
@@ -1020,29 +1547,35 @@ def results_case_estimation(ctx, res, case):
         B.bootstrap_samples = 5
         B.generate_html = bool(case.get('html', True))
         B.generate_pickle = bool(case.get('pickle', True))
-        if case.get('quick'):
+        if case.get('quick') and not case.get('after_estimate'):
             r = B.quick_estimate()
         else:
             r = B.estimate(run_bootstrap=bool(case.get('bootstrap')) and len(case['names']) >= 2)
+            if case.get('quick'):
+                # a quick estimation on the object that has just been estimated (the bootstrap sample of the first estimation is still there)
+                r = B.quick_estimate()
         names = list(r.data.betaNames)
         values = [float(v) for v in r.data.betaValues]
         res.count(case, nontrivial=True)
-        res.tally('results:estimated' + (':quick' if case.get('quick') else ''))
-        if case.get('quick'):
-            # known shape: reports other than the printed form need the second derivatives
-            snap = {k: attempt(f) for k, f in (('html', r.get_html), ('latex', r.get_latex), ('f12', r.get_f12), ('str', lambda: str(r)))}
-            for k, v in snap.items():
-                if isinstance(v, str) and v.startswith('EXC:'):
-                    res.violate(f'report {k} of a quick_estimate result cannot be generated: {v}', case, v, 'a report listing every parameter', where=W_QUICK)
-            found = parse_reports({**{k: (v if isinstance(v, str) else '') for k, v in snap.items()}}, names, values)
-            for n, x, t in zip(names, values, found['str']):
-                if t is None or not value_agrees(t, x, 3):
-                    res.violate(f'printed form of a quick_estimate result does not list {n!r} with its value', case, t, f'{x:.3g}', where='bioResults.__str__')
-            return
+        res.tally('results:estimated' + (':quick' if case.get('quick') else '') + (':after estimate' if case.get('quick') and case.get('after_estimate') else ''))
         active = [bool(b.is_bound_active()) for b in r.data.betas]
+        # the file estimate() itself saved holds the results it returned
+        own = r.data.pickleFileName
+        if own is not None:
+            from biogeme.results import bioResults
+
+            res.tally('results:pickle written by estimate() loaded')
+            try:
+                mine, theirs = snapshot(r), snapshot(bioResults(pickle_file=own, identification_threshold=r.identification_threshold))
+                bad = [k for k in mine if mine[k] != theirs[k]]
+                if bad:
+                    res.violate(f'the results saved by estimate() in {own!r} differ from the results it returned in: {bad}', case, _short(theirs[bad[0]]), _short(mine[bad[0]]),
+                                where='BIOGEME.estimate: write_pickle')
+            except Exception as e:  # noqa: BLE001
+                res.violate(f'the results saved by estimate() cannot be loaded: {type(e).__name__}: {e}', case, own, 'results loaded', where='BIOGEME.estimate: write_pickle')
         check_results_object(ctx, res, case, r, names, values, active, stub=False)
         # what estimate() itself wrote: html lists the parameters; pickle written by estimate loads to the same estimates
-        if case.get('html', True) and os.path.isfile(case['model'] + '.html'):
+        if not case.get('quick') and case.get('html', True) and os.path.isfile(case['model'] + '.html'):
             html = Path(case['model'] + '.html').read_text(encoding='utf-8')
             f = parse_reports({'html': html, 'latex': '', 'f12': '', 'str': ''}, names, values)
             for n, x, t in zip(names, values, f['html']):
@@ -1548,11 +2081,18 @@ CORPUS = [
     # a Python bool accepted for an int parameter is not read back (outside 'admissible': model and code must agree)
     {'kind': 'params', 'assigns': [{'sec': None, 'name': 'number_of_threads', 'value': {'b': True}}]},
     {'kind': 'params', 'assigns': [{'sec': None, 'name': 'second_derivatives', 'value': {'i': 1}}, {'sec': None, 'name': 'initial_radius', 'value': {'f': f2b(-0.0)}}]},
+    # user-added parameters under the name of an existing one: ambiguity of the name without section; known finding FC14-6 (second case)
+    {'kind': 'params', 'assigns': [{'sec': None, 'name': 'seed', 'value': {'i': 7}}, {'sec': 'UserSection', 'name': 'seed', 'value': {'i': 8}}, {'sec': 'MonteCarlo', 'name': 'seed', 'value': {'i': 9}}],
+     'extra': [{'name': 'seed', 'from': 'MonteCarlo', 'sec': 'UserSection'}]},
+    {'kind': 'params', 'assigns': [], 'extra': [{'name': 'optimization_algorithm', 'from': 'Estimation', 'sec': 'UserSection'}]},
     # known findings
     {'kind': 'results_latex', 'value': 200000.0},
     {'kind': 'flat', 'n': 2},
     {'kind': 'recycle', 'model': 'm', 'n': 102},
     {'kind': 'estimation', 'model': 'quick', 'names': ['b_x', 'asc'], 'quick': True},
+    # results without second derivatives are saved and loaded like the others: one parameter; after an estimation with bootstrap on the same object
+    {'kind': 'estimation', 'model': 'quick1', 'names': ['b_x'], 'quick': True, 'null': True},
+    {'kind': 'estimation', 'model': 'quick b', 'names': ['b_x', 'asc'], 'quick': True, 'after_estimate': True, 'bootstrap': True, 'writes': ['html']},
     # names: F12 label collision, '-' in a name, html characters
     {'kind': 'estimation', 'model': 'mod', 'names': ['beta_time_car', 'asc-2', 'B<3>'], 'null': True, 'bootstrap': True},
     {'kind': 'history', 'pre': ['m.html', 'm~00.html', 'm~02.html'], 'ops': [['write', 'html', 'm'], ['write', 'html', 'm'], ['delete', 0], ['write', 'html', 'm'], ['backup', 1, True], ['backup', 0, False]]},
@@ -1613,7 +2153,7 @@ def _run_case(ctx, res, case, table):
         raise ValueError(k)
 
 
-MATCHERS = {'latex_suffix': latex_suffix_case, 'more_than_101_pickles': more_than_101_pickles, 'glob_special_model_name': glob_special_case}
+MATCHERS = {'extra_optimization_algorithm': extra_optimization_algorithm, 'latex_suffix': latex_suffix_case, 'more_than_101_pickles': more_than_101_pickles, 'glob_special_model_name': glob_special_case}
 
 
 def _guard_batch(ctx, res):
@@ -1646,23 +2186,48 @@ def check(ctx) -> Result:
     # the table handed to the driver is the one the Generated obligations are about
     if not GEN.exists() or GEN.read_text() != render_generated(*table):
         res.extra_obligations.append({'name': 'Generated.DefaultParams is current', 'ok': False, 'why': 'generated file differs from the live table'})
+    live_attrs = live_attr_table()
+    if not GEN_ATTRS.exists() or GEN_ATTRS.read_text() != render_attrs(live_attrs):
+        res.extra_obligations.append({'name': 'Generated.ResultsAttrs is current', 'ok': False, 'why': 'generated file differs from the live source of biogeme.results'})
+
+    def cb_attrs(a):
+        got, exp = sorted(map(json.dumps, a.get('table', []))), sorted(json.dumps(r) for r in live_attrs)
+        if got != exp:
+            res.diverge('attributes assigned by biogeme.results (AST of the live source) vs ResObj.sourceTable (driver)', {'kind': 'attr-table'},
+                        sorted(set(got) - set(exp)), sorted(set(exp) - set(got)))
+
+    ctx.batch.add({'op': 'attr_table'}, cb_attrs)
     ctx.batch.add({'op': 'table_ok', 'algos': table[0], 'params': table[1]},
                   lambda a: None if a.get('ok') is True else res.diverge('Params.tableOK on the live default table (driver)', {'kind': 'table'}, a, True))
     for c in CORPUS:
         run_case(ctx, res, c, table)
         res.tally('corpus')
     check_missing_file(ctx, res)
-    for _ in range(ctx.n(250, 4000)):
+    for _ in range(ctx.n(250, 3500)):
         run_case(ctx, res, gen_param_case(rng, *table), table)
     for _ in range(ctx.n(120, 2000)):
         run_case(ctx, res, gen_file_case(rng, *table), table)
-    for i in range(ctx.n(120, 1500)):
+    for i in range(ctx.n(100, 1200)):
         run_case(ctx, res, gen_results_spec(rng, rng.choice(['r', 'res ults', 'r~00', 'β'])), table)
+    # every kind of results object the constructor admits (2^6 combinations of optional inputs, 1-5 parameters)
+    combos = [(h, g, i, n, b) for h in (False, True) for g in (False, True) for i in (False, True) for n in (False, True) for b in (False, True)]
+    rng.shuffle(combos)
+    for j in range(ctx.n(40, 500)):
+        flags = None
+        if j < len(combos):
+            h, g, i, n, b = combos[j]
+            flags = {'H': h, 'bhhh': h, 'g': g, 'initLogLike': i, 'nullLogLike': n, 'bootstrap': b, 'userNotes': rng.random() < 0.5}
+        run_case(ctx, res, gen_kind_spec(rng, rng.choice(['k', 'k k', 'k~00']), flags), table)
+    for i in range(ctx.n(5, 40)):
+        names = rng.sample(NAME_POOL, rng.randint(1, 3))
+        run_case(ctx, res, {'kind': 'estimation', 'model': rng.choice(['qm', 'q m']), 'names': names, 'rows': rng.randint(8, 40), 'seed': rng.randint(1, 10**6),
+                            'null': rng.random() < 0.5, 'quick': True, 'after_estimate': rng.random() < 0.5, 'bootstrap': rng.random() < 0.6,
+                            'html': rng.random() < 0.5, 'pickle': rng.random() < 0.5, 'writes': [w for w in ('html', 'latex', 'f12') if rng.random() < 0.3]}, table)
     for i in range(ctx.n(8, 60)):
         names = rng.sample(NAME_POOL, rng.randint(1, 3))
         run_case(ctx, res, {'kind': 'estimation', 'model': rng.choice(['em', 'e m', 'e.m']), 'names': names, 'rows': rng.randint(8, 40), 'seed': rng.randint(1, 10**6),
                             'null': rng.random() < 0.5, 'bootstrap': rng.random() < 0.4, 'html': rng.random() < 0.7, 'pickle': rng.random() < 0.7,
-                            'bounds': rng.choice([None, None, [0.0, 1.0], [-0.001, 0.001]])}, table)
+                            'bounds': rng.choice([None, None, [0.0, 1.0], [-0.001, 0.001]]), 'writes': [w for w in ('html', 'latex', 'f12') if rng.random() < 0.3]}, table)
     for i in range(ctx.n(80, 900)):
         run_case(ctx, res, gen_history(rng), table)
     for i in range(ctx.n(4, 40)):
@@ -1690,8 +2255,8 @@ def search(ctx, res, broken):
     table = live_table()
     gens = [lambda: gen_param_case(rng, *table), lambda: gen_file_case(rng, *table), lambda: gen_results_spec(rng, 's'),
             lambda: gen_history(rng), lambda: gen_recycle(rng, rng.choice([1, 2, 12, 101])),
-            lambda: gen_history(rng, long=True), lambda: gen_backup_history(rng), lambda: gen_recycle(rng)]
-    weights = [40, 20, 25, 25, 3, 2, 20, 10]
+            lambda: gen_history(rng, long=True), lambda: gen_backup_history(rng), lambda: gen_recycle(rng), lambda: gen_kind_spec(rng, 's k')]
+    weights = [40, 20, 25, 25, 3, 2, 20, 10, 30]
     for i in range(500):
         g = rng.choices(gens, weights)[0]
         r2 = Result()
